@@ -5,5 +5,13 @@ NONTRIVIAL = {"C01": ["dec_ok", "key_creations"], "C02": ["faulted_ops", "key_cr
               "C04": ["key_creations", "metastore_reads"], "C05": ["revocations", "metastore_reads"], "C07": ["mutated_records"],
               "C09": ["key_creations", "faulted_ops", "metastore_reads"], "C10": ["metastore_reads", "dec_ok"], "C20": ["enc_ok", "dec_ok"]}
 
+def concurrent_part(ctx):
+    # "a system key is unwrapped at most once per factory per interval however many sessions use it":
+    # two operations needing the same cold / stale system key under every one-preemption schedule
+    from verifpy.conc import preempt_part
+    preempt_part(ctx, "C20", "c20-")
+    ctx.trusted.append("go/cmd/hxconc c20-* scenarios: KMS unwraps and metastore reads of every preempted schedule bounded by the sequential orders")
+
+
 def run(ctx):
-    return envelope.run(ctx, "C20", ["AsherahVerif.Props.C20"], NONTRIVIAL["C20"], modes=(('boundaries',), ('allboundaries',)))
+    return envelope.run(ctx, "C20", ["AsherahVerif.Props.C20"], NONTRIVIAL["C20"], modes=(('boundaries',), ('allboundaries',)), pre_finish=concurrent_part)
